@@ -22,19 +22,19 @@ theorem dropWhile_all {α : Type} (p : α → Bool) (l : List α) (h : ∀ a ∈
   | cons a as ih =>
     simp [List.dropWhile, h a (List.mem_cons_self ..), ih (fun b hb => h b (List.mem_cons_of_mem _ hb))]
 
-theorem handlesList_append (a b : List HTree) :
+theorem handlesList_append_ff (a b : List HTree) :
     handlesList (a ++ b) = handlesList a ++ handlesList b := by
   induction a with
   | nil => simp [handlesList]
   | cons k ks ih => simp [handlesList, ih]
 
-theorem handle_mem_handles (t : HTree) : t.handle ∈ handles t := by
+theorem handle_mem_handles_ff (t : HTree) : t.handle ∈ handles t := by
   cases t; simp [handles, HTree.handle]
 
 theorem handles_eq (t : HTree) : handles t = t.handle :: handlesList t.kids := by
   cases t; simp [handles, HTree.handle, HTree.kids]
 
-theorem mem_handlesList {h : Nat} {ts : List HTree} :
+theorem mem_handlesList_ff {h : Nat} {ts : List HTree} :
     h ∈ handlesList ts ↔ ∃ t ∈ ts, h ∈ handles t := by
   induction ts with
   | nil => simp [handlesList]
@@ -58,7 +58,7 @@ mutual
       exact findList?_none_of_not_mem h ks hn.2
 end
 
-theorem find?_self (t : HTree) : find? t.handle t = some t := by
+theorem find?_self_ff (t : HTree) : find? t.handle t = some t := by
   cases t; simp [find?, HTree.handle]
 
 theorem findList?_append_of_none (h : Nat) (a b : List HTree) (hn : findList? h a = none) :
@@ -80,7 +80,7 @@ theorem findList?_append_of_not_mem (h : Nat) (a b : List HTree) (hn : h ∉ han
   findList?_append_of_none h a b (findList?_none_of_not_mem h a hn)
 
 theorem findList?_cons_self (t : HTree) (b : List HTree) : findList? t.handle (t :: b) = some t := by
-  unfold findList?; rw [find?_self]
+  unfold findList?; rw [find?_self_ff]
 
 theorem findList?_cons_of_not_mem (h : Nat) (t : HTree) (b : List HTree) (hn : h ∉ handles t) :
     findList? h (t :: b) = findList? h b := by
@@ -100,7 +100,7 @@ mutual
       intro hn
       simp only [handlesList, List.mem_append, not_or] at hn
       unfold ctxKids
-      have hk : k.handle ≠ h := fun e => hn.1 (e ▸ handle_mem_handles k)
+      have hk : k.handle ≠ h := fun e => hn.1 (e ▸ handle_mem_handles_ff k)
       rw [if_neg hk]
       have : h ∉ handlesList k.kids := by
         intro hm; apply hn.1; rw [handles_eq]; exact List.mem_cons_of_mem _ hm
@@ -113,45 +113,45 @@ theorem ctxBelow_none_of_not_mem' (h : Nat) (t : HTree) (hn : h ∉ handles t) :
   intro hm; apply hn; rw [handles_eq]; exact List.mem_cons_of_mem _ hm
 
 mutual
-  theorem mapAt_of_not_mem (h : Nat) (g : HTree → HTree) : ∀ t : HTree, h ∉ handles t → mapAt h g t = t
+  theorem mapAt_of_not_mem_ff (h : Nat) (g : HTree → HTree) : ∀ t : HTree, h ∉ handles t → mapAt h g t = t
     | .node h' v ks => by
       intro hn
       simp only [handles, List.mem_cons, not_or] at hn
       unfold mapAt
-      rw [if_neg (fun e => hn.1 e.symm), mapAtList_of_not_mem h g ks hn.2]
-  theorem mapAtList_of_not_mem (h : Nat) (g : HTree → HTree) : ∀ ks : List HTree, h ∉ handlesList ks →
+      rw [if_neg (fun e => hn.1 e.symm), mapAtList_of_not_mem_ff h g ks hn.2]
+  theorem mapAtList_of_not_mem_ff (h : Nat) (g : HTree → HTree) : ∀ ks : List HTree, h ∉ handlesList ks →
       mapAtList h g ks = ks
     | [] => by intro _; rfl
     | k :: ks => by
       intro hn
       simp only [handlesList, List.mem_append, not_or] at hn
       unfold mapAtList
-      rw [mapAt_of_not_mem h g k hn.1, mapAtList_of_not_mem h g ks hn.2]
+      rw [mapAt_of_not_mem_ff h g k hn.1, mapAtList_of_not_mem_ff h g ks hn.2]
 end
 
 theorem map_mapAt_of_not_mem (h : Nat) (g : HTree → HTree) (ks : List HTree) (hn : h ∉ handlesList ks) :
     ks.map (mapAt h g) = ks := by
-  rw [← mapAtList_eq_map, mapAtList_of_not_mem h g ks hn]
+  rw [← mapAtList_eq_map, mapAtList_of_not_mem_ff h g ks hn]
 
 mutual
-  theorem replaceBelow_of_not_mem (h : Nat) (g : HTree → List HTree) : ∀ t : HTree,
+  theorem replaceBelow_of_not_mem_ff (h : Nat) (g : HTree → List HTree) : ∀ t : HTree,
       h ∉ handlesList t.kids → replaceBelow h g t = t
     | .node p v ks => by
       intro hn
       unfold replaceBelow
-      rw [replaceKids_of_not_mem h g ks hn]
-  theorem replaceKids_of_not_mem (h : Nat) (g : HTree → List HTree) : ∀ ks : List HTree,
+      rw [replaceKids_of_not_mem_ff h g ks hn]
+  theorem replaceKids_of_not_mem_ff (h : Nat) (g : HTree → List HTree) : ∀ ks : List HTree,
       h ∉ handlesList ks → replaceKids h g ks = ks
     | [] => by intro _; rfl
     | k :: ks => by
       intro hn
       simp only [handlesList, List.mem_append, not_or] at hn
       unfold replaceKids
-      have hk : k.handle ≠ h := fun e => hn.1 (e ▸ handle_mem_handles k)
+      have hk : k.handle ≠ h := fun e => hn.1 (e ▸ handle_mem_handles_ff k)
       rw [if_neg hk]
       have : h ∉ handlesList k.kids := by
         intro hm; apply hn.1; rw [handles_eq]; exact List.mem_cons_of_mem _ hm
-      rw [replaceBelow_of_not_mem h g k this, replaceKids_of_not_mem h g ks hn.2]
+      rw [replaceBelow_of_not_mem_ff h g k this, replaceKids_of_not_mem_ff h g ks hn.2]
 end
 
 theorem map_replaceBelow_of_not_mem (h : Nat) (g : HTree → List HTree) (ks : List HTree)
@@ -162,7 +162,7 @@ theorem map_replaceBelow_of_not_mem (h : Nat) (g : HTree → List HTree) (ks : L
     simp only [handlesList, List.mem_append, not_or] at hn
     have : h ∉ handlesList k.kids := by
       intro hm; apply hn.1; rw [handles_eq]; exact List.mem_cons_of_mem _ hm
-    simp [replaceBelow_of_not_mem h g k this, ih hn.2]
+    simp [replaceBelow_of_not_mem_ff h g k this, ih hn.2]
 
 mutual
   theorem ancestorsOf_none_of_not_mem (h : Nat) : ∀ t : HTree, h ∉ handles t → ancestorsOf h t = none
